@@ -91,7 +91,9 @@ func (r *record) String() string {
 	} else {
 		toStr = r.to.String()
 	}
-	return fmt.Sprintf("%s %s %s <%s> %s %s\t%s: %s\n", fromStr, toStr, r.name, r.email, r.unixtime, r.timeDiff, r.recType, r.message)
+	// a record is one line: like Git, log only the first line (the subject) of the message
+	subject := strings.SplitN(r.message, "\n", 2)[0]
+	return fmt.Sprintf("%s %s %s <%s> %s %s\t%s: %s\n", fromStr, toStr, r.name, r.email, r.unixtime, r.timeDiff, r.recType, subject)
 }
 
 type GoitLogger struct {
